@@ -30,7 +30,7 @@ From AV Require Import Base.Bytes Base.Outcome Hash.HashModel Tree.Heap Tree.Ops
   Tree.MergeSpec Tree.MergePure Tree.LoadProofs Tree.LoadProofsWalk Tree.LoadProofsRefuted
   Tree.MergePureProofsBase Tree.MergePureProofs Tree.MergePureProofsMain Tree.MergePureProofsKeys
   Tree.LoadRefineBase Tree.LoadRefinePure Tree.LoadRefineHeap Tree.LoadRefineMain Tree.LoadRefineGood Tree.LoadRefineTop
-  Tree.LoadEffects.
+  Tree.LoadEffects Tree.MergeGoodExamples.
 From AV Require Xml.Lexer Xml.Parser.
 Open Scope N_scope.
 
@@ -330,3 +330,43 @@ Theorem C11_load_merge_conflict_residue :
     w_nodes w' i = Some (set_files n [0]) /\
     w_files w' = w_files w /\ option_map m_idents (nth_opt (w_models w') 0) = option_map m_idents (nth_opt (w_models w) 0).
 Proof. exact load_merge_conflict_residue. Qed.
+
+(* ====================================================================== the extended class Good *)
+(* The class of the union theorems (MergePureProofs.Good) now also contains
+     * split points with SEQUENCE content (NodeOK, third case: the parent is splittable, not a bag, and its sub-elements
+       are of pairwise different kinds listed in schema order — SeqKids —, each in any subset of the parent's files):
+       import_new_items inserts a new sub-element at its place in the schema order whatever was loaded before;
+     * sub-elements keyed by their DEFINITION-REF (C09_key_of_defref_element), e.g. parameter values inside the bag of an
+       ECUC container.
+   C09_merge_step / C09_merge_union_partial / C09_file_projection / C09_merge_union are statements about this class. *)
+Theorem C09_key_of_defref_element :
+  forall (T : tables) (defref : N) (pty : N * N) (name : N) (ty : N * N) (attrs : list (N * Parser.cdata))
+         (content : list (mtree + Parser.cdata)) (comment : option (list N)) (files : list N) (idx : list N) (sub : N * N)
+         (tyd : N * N) (dr : list N) (dattrs : list (N * Parser.cdata)) (dcomment : option (list N)),
+    is_named T ty = Val false -> content_mode T tyd = Val MCharacters ->
+    find_sub_element T pty name 4294967295 = Val (Some (sub, idx)) -> files <> [] ->
+    let d := MNode defref tyd dattrs [inr (Parser.DString dr)] dcomment files in
+    In d (kids content) -> (forall c, In c (kids content) -> m_name c = defref -> c = d) ->
+    KeyStable T defref pty (MNode name ty attrs content comment files) (mkCore name false None (Some dr) idx).
+Proof. exact keystable_defref. Qed.
+
+(* the insertion range of a new kind among the present kinds of a sequence is ONE position: after the smaller kinds *)
+Theorem C09_sequence_insert_position :
+  forall (T : tables) (v : N) (ty : N * N) (idx : mtree -> list N) (c : mtree) (A B : list mtree) (i : N),
+    (forall x, In x (A ++ B) -> exists sub, find_sub_element T ty (m_name x) v = Val (Some (sub, idx x))) ->
+    (forall x, In x (A ++ B) -> exists g gd, find_common_group T ty (idx c) (idx x) = Val g /\ dt T g = Val gd /\
+                                             dt_mode gd = MSequence) ->
+    (forall x, In x A -> lex_cmp (idx c) (idx x) = Gt) -> (forall x, In x B -> lex_cmp (idx c) (idx x) = Lt) ->
+    p_range_loop T ty v (idx c) (map (fun x => Some (m_name x)) (A ++ B)) i i i =
+    Val (OK (i + N.of_nat (List.length A), i + N.of_nat (List.length A))).
+Proof. exact p_range_loop_seq. Qed.
+
+(* non-vacuity of the two extensions: a master over a second tiny table set with a sequence split point (B only in
+   file 1, C only in file 0) and DEFINITION-REF keyed PARAMs in a bag is in the class, and the heap model merges its
+   two views to the master in both load orders (B is inserted between VALUES and C) *)
+Theorem C09_class_extended_nonvacuous : Good TinyS.tinyS TinyS.DEFREF 2 TinyS.master.
+Proof. exact TinyS.master_good. Qed.
+Theorem C09_example_sequence_merge :
+  TinyS.final [("f0"%string, TinyS.file0); ("f1"%string, TinyS.file1)] = Some (expected None TinyS.master) /\
+  TinyS.final [("f1"%string, TinyS.file1); ("f0"%string, TinyS.file0)] = Some (expected None TinyS.master_10).
+Proof. exact (conj TinyS.merge_01 TinyS.merge_10). Qed.
